@@ -25,7 +25,7 @@ os.unlink(junit)
 missing = sorted(stable - passed)
 # timing-sensitive tests (subprocess executor, timeouts) fail spuriously when the machine is loaded:
 # re-run only the missing ones, alone, before calling them failures
-for _attempt in range(2):
+for _attempt in range(6):
     if not missing or len(missing) > 60:
         break
     fd, junit = tempfile.mkstemp(suffix=".xml"); os.close(fd)
